@@ -9,6 +9,7 @@ CONSTANTS
   SectorSize = 32
   MaxFaults = 1
   MaxRetry = 1
+  Session = FALSE
   Kinds = {"T2", "T1S", "T1D", "T512"}
   Sizes = {4}
   Pads = {0, 1, 2, 3, 4, 5, 6, 7}
@@ -18,7 +19,7 @@ CONSTANTS
   LockBits = {}
   CtlTypes = {2}
   TwoCtl = FALSE
-  OldLens = {1, 5}
+  OldLens = {1, 9}
 INVARIANT FxAtomic
 INVARIANT AtomicButStraddle
 INVARIANT Coherent
